@@ -151,6 +151,15 @@ func c11Go(t TV) any {
 		it := &Item{Title: "cyc"}
 		it.Sub = it
 		return it
+	case "cyclicValue": // page.Meta is a value struct whose Owner points back to the page
+		pg := &CycPage{Title: "t", Meta: CycMeta{Note: "n", Tags: []string{"x"}}}
+		pg.Meta.Owner = pg
+		pg.Sub = pg
+		return pg
+	case "cyclicValueByValue": // the same, the root handed over by value
+		pg := &CycPage{Title: "t", Meta: CycMeta{Note: "n"}}
+		pg.Meta.Owner = pg
+		return *pg
 	case "cyclic2*Item": // a cycle of two: a.Sub = b, b.Sub = a
 		a, b := &Item{Title: "a"}, &Item{Title: "b"}
 		a.Sub, b.Sub = b, a
@@ -258,7 +267,7 @@ var c11SlotForward = []map[string]string{
 		"layouts/lay.vuego": `<aside><slot name="side">FB</slot></aside><main v-html="content"></main>`},
 }
 
-var c11StructRoots = []string{"Item", "*Item", "Emb", "cyclic*Item", "cyclic2*Item", "nil*Item", "[]Item", "map[int]string", "string", "int", "chan", "func", "deep"}
+var c11StructRoots = []string{"Item", "*Item", "Emb", "cyclic*Item", "cyclic2*Item", "cyclicValue", "cyclicValueByValue", "nil*Item", "[]Item", "map[int]string", "string", "int", "chan", "func", "deep"}
 
 // every root through every entry point
 var c11NStruct = len(c11StructRoots) * len(c11EPs)
@@ -444,7 +453,7 @@ func (p *c11) Gen(ctx core.Ctx, i int) any {
 	}
 	roots := c11StructRoots
 	return c11Case{Part: "struct", Root: roots[i%len(roots)], EP: c11EPs[(i/len(roots))%len(c11EPs)],
-		Tpl: `<p>{{ title }}|{{ Title }}|{{ hidden }}|{{ Plain }}|{{ sub.title }}|{{ Sub.Sub.Sub.title }}|{{ extra }}|{{ Item.title }}</p><p v-if="title == 't'">eq</p><i v-for="t in tags">{{ t }}</i><b :title="count">{{ count + 1 }}</b><u>{{ sub }}</u><u v-text="sub"></u><u :data-x="sub" v-html="sub"></u><u :class="{a: sub}" v-show="sub">{{ sub | json }}</u><s v-for="(k, v) in sub">{{ k }}={{ v }}</s>`}
+		Tpl: `<p>{{ title }}|{{ Title }}|{{ hidden }}|{{ Plain }}|{{ sub.title }}|{{ Sub.Sub.Sub.title }}|{{ extra }}|{{ Item.title }}</p><p v-if="title == 't'">eq</p><i v-for="t in tags">{{ t }}</i><b :title="count">{{ count + 1 }}</b><u>{{ sub }}</u><u v-text="sub"></u><u :data-x="sub" v-html="sub"></u><u :class="{a: sub}" v-show="sub">{{ sub | json }}</u><s v-for="(k, v) in sub">{{ k }}={{ v }}</s><em>{{ meta.note }}|{{ meta.owner.title }}|{{ meta }}|{{ meta.owner.meta.owner.meta.note }}</em><em v-if="meta.owner">{{ meta.owner | json }}</em>`}
 }
 
 func (p *c11) Decode(raw json.RawMessage) (any, error) { return core.JSONDecode[c11Case](raw) }
